@@ -75,21 +75,26 @@ behind has no gradient that was not there before: every tensor's `_grad` is eith
 no tensor, buffer or op is otherwise changed. -/
 theorem bad_seed_rejected_no_write (h : Heap) (L : Nat) (seed : Seed) (e : Err)
     (hL : (h.t L).const = false) (touched topo : List Nat)
-    (hcol : collect h.fuel h L [] [] = some (touched, topo))
+    (hcol : collect (startOver h L).fuel (startOver h L) L [] [] = some (touched, topo))
     (hbad : seedVal (h.t L).data.d.shape seed = .error e) :
     ∃ h', backward h L seed = .error (e, h') ∧ h'.bufs = h.bufs ∧ h'.ops = h.ops ∧
       ∀ t, (h'.t t).grad = none ∨ (h'.t t).grad = (h.t t).grad := by
-  refine ⟨touched.foldl (fun h t => h.modT t ({ · with grad := none, viewGrad := none })) h, ?_, ?_, ?_, ?_⟩
+  refine ⟨touched.foldl (fun h t => h.modT t ({ · with grad := none, viewGrad := none })) (startOver h L), ?_, ?_, ?_, ?_⟩
   · simp [backward, hL, hcol, hbad]
-  · exact foldl_modT_bufs touched id (fun _ x => { x with grad := none, viewGrad := none }) h
-  · clear hcol hbad hL
-    induction touched generalizing h with
-    | nil => rfl
-    | cons x xs ih =>
-      simp only [List.foldl_cons]
-      rw [ih]; rfl
+  · exact (foldl_modT_bufs touched id (fun _ x => { x with grad := none, viewGrad := none }) _).trans (startOver_bufs h L)
+  · have hops : ∀ (ts : List Nat) (h0 : Heap),
+        (ts.foldl (fun h t => h.modT t ({ · with grad := none, viewGrad := none })) h0).ops = h0.ops := by
+      intro ts
+      induction ts with
+      | nil => intro h0; rfl
+      | cons x xs ih =>
+        intro h0
+        simp only [List.foldl_cons]
+        rw [ih]; rfl
+    rw [hops, startOver_ops]
   · intro t
-    exact null_fold_grads touched h t
+    have := null_fold_grads touched (startOver h L) t
+    simpa using this
 
 /-- **stored_grads_have_tensor_shape.**  When the back-propagation loop completes, every gradient it
 has accumulated — for every tensor, whatever mixture of broadcasting, where-masks, views and
